@@ -99,6 +99,7 @@ func vCMAuthenticate(t *testing.T, ops, impl *os.File) {
 	leafOK := &x509.Certificate{DNSNames: []string{"victim.example.org"}}
 	leafBad := &x509.Certificate{DNSNames: []string{"attacker.example"}}
 	caLike := &x509.Certificate{DNSNames: []string{"victim.example.org"}, IsCA: true}
+	caOther := &x509.Certificate{DNSNames: []string{"ca.example"}, IsCA: true}
 	cases := []struct {
 		name    string
 		claimed did.DID
@@ -108,6 +109,12 @@ func vCMAuthenticate(t *testing.T, ops, impl *os.File) {
 		{"other-leaf", victim, []*x509.Certificate{leafBad}},
 		{"other-leaf-covering-issuer", victim, []*x509.Certificate{leafBad, caLike}},
 		{"covering-leaf-other-issuer", victim, []*x509.Certificate{leafOK, leafBad}},
+		// the TLS handshake proves possession of the key of PeerCertificates[0] only: anything the peer appends is unproven
+		{"attacker-leaf-then-victim-leaf", victim, []*x509.Certificate{leafBad, leafOK}},
+		{"attacker-leaf-ca-victim-leaf", victim, []*x509.Certificate{leafBad, caLike, leafOK}},
+		{"attacker-leaf-victim-leaf-ca", victim, []*x509.Certificate{leafBad, leafOK, caLike}},
+		{"covering-leaf-ca-attacker-leaf", victim, []*x509.Certificate{leafOK, caLike, leafBad}},
+		{"ca-first-then-attacker-leaf", victim, []*x509.Certificate{caOther, leafBad}},
 		{"no-certificate", victim, nil},
 		{"no-did-claimed", did.DID{}, []*x509.Certificate{leafBad}},
 	}
